@@ -99,7 +99,7 @@ def addop(operator, prec, fun, numargs=None):
 a = addop
 a(UMinus, 10, lambda x: -x)
 a(UPlus, 10, lambda x: x)
-a("^", 10, math.pow, 2)
+a("^", 9, math.pow, 2)  # below the (unary, never popping) functions and "not", above * and /: documented order
 a("not", 9, lambda x: int(not bool(x)))
 a("abs", 9, abs, 1)
 a("sin", 9, math.sin, 1)
